@@ -3,6 +3,7 @@ import TD.C01.Model
 import TD.C01.Spec
 import TD.C01.Wire
 import TD.C02.Model
+import TD.C02.ObjModel
 import TD.C02.Spec
 open TD TD.C01 TD.C02 TD.Proto
 
@@ -14,6 +15,10 @@ Line protocol of the C02 driver.
 * `hist <hex> <reqs>` → `r1|r2|…`, reqs = `vrPos,lrshPos,off,len;…`, each r = `ok <payloadHex> <p+n,p+n,…>` (the reads
     made, in order: position+bytes returned) or `err:Class`  (model of a history of get_file_logical_data calls on
     one reader object)
+* `obj <hex> <ops>` → `o1|o2|…`, ops = `A:E;B:F2,0,-1;A:X;A:S;A:I;A:P;…` on two index objects A, B sharing one file object
+    (E enter, X exit, F fetch i,off,len, S re-scan on the same FileRead, I sequential iteration on it, P pickle round
+    trip); outputs: E → `ok <entries>`, X/P → `ok`, F → as in `hist`, S → `<ok|err:Class> <entries>`,
+    I → `<ok|err:Class> <recs as C01 iter>`, any failure → `err:Class`
 * `spec <sul> <recs>` (arguments as for C01 `enc`) → `ok <hex of the file> <specPositions as for positions> <spans>`,
     spans = per record `lo-hi` : the byte interval of the visible records holding the record (specification side)
 -/
@@ -42,6 +47,37 @@ def showFetched : Except Err Fetched → String
   | .error e => "err:" ++ errName e
   | .ok f => s!"ok {hex f.out} " ++ (if f.touched.isEmpty then "-" else ",".intercalate (f.touched.map fun (p, n) => s!"{p}+{n}"))
 
+def parseOp (s : String) : Option (Bool × Op) :=
+  match s.splitOn ":" with
+  | [o, body] => do
+    let j ← (if o = "A" then some false else if o = "B" then some true else none)
+    let op ← (if body = "E" then some Op.enter else if body = "X" then some Op.exit
+      else if body = "S" then some Op.rescan else if body = "I" then some Op.iter else if body = "P" then some Op.pickle
+      else if body.startsWith "F" then
+        match (body.drop 1).toString.splitOn "," with
+        | [i, off, len] => do
+          let i ← i.toNat?
+          let off ← off.toInt?
+          let len ← len.toInt?
+          pure (Op.fetch i off len)
+        | _ => none
+      else none)
+    pure (j, op)
+  | _ => none
+
+def stS (st : Option Err) : String :=
+  match st with
+  | none => "ok"
+  | some e => "err:" ++ errName e
+
+def showOut : Out → String
+  | .entered l => s!"ok {showPoss l}"
+  | .done => "ok"
+  | .fetched f => showFetched (.ok f)
+  | .scanned l e => s!"{stS e} {showPoss l}"
+  | .iterated l e => s!"{stS e} {showRecs l}"
+  | .error e => "err:" ++ errName e
+
 def step (line : String) : String :=
   match line.splitOn " " with
   | ["positions", h] =>
@@ -56,6 +92,11 @@ def step (line : String) : String :=
   | ["hist", h, reqs] =>
     match unhex h, (reqs.splitOn ";").mapM parseReq with
     | some b, some qs => "|".intercalate ((runHist b default qs).map showFetched)
+    | _, _ => "bad-op"
+  | ["obj", h, ops] =>
+    match unhex h, (ops.splitOn ";").mapM parseOp with
+    | some b, some os =>
+      "|".intercalate ((runObj2 (fun _ rs => rs) b 0 ⟨[], default, false⟩ ⟨[], default, false⟩ os).map showOut)
     | _, _ => "bad-op"
   | ["spec", sul, recs] =>
     match parseSul sul, parseRecs recs with
